@@ -46,6 +46,48 @@ ASSUMPTIONS = ['a comment glued to an identifier without white space (ifIndex-- 
                'separators are required to start with a white-space character']
 
 
+APP_TYPES_V1 = ('Counter', 'Gauge', 'TimeTicks', 'IpAddress', 'NetworkAddress', 'Opaque')
+
+
+def smiv1_failures(vg, tree_mod):
+    out = []
+    decls = {}
+    for d in tree_mod[3] or []:
+        if d is not None:
+            decls.setdefault(d[1], d)
+    for d in vg.decls:
+        sx = d.get('syntax')
+        if isinstance(sx, dict) and not sx.get('user') and sx.get('name') in APP_TYPES_V1 and d['name'] in decls:
+            node = pc._find(decls[d['name']], 'ApplicationSyntax')
+            if node is None or node[1] != sx['name']:
+                out.append('%s: SYNTAX %s is %r in the tree, not the application type' % (d['name'], sx['name'], decls[d['name']][2]))
+    return out
+
+
+def smiv1_stream(ctx):
+    import random
+    from gen import v1gen
+    res = ctx.res
+    for dialect in pc.DIALECTS:                      # parsers of all dialects exist, the SMIv2 one first
+        grammar.build(pc.DIALECTS[dialect])
+    base = ctx.seed * 1000 + 9700
+    for i in range(10 if ctx.tier == 'quick' else 150):
+        vg = v1gen.V1Gen(random.Random(base + i), size=8).build()
+        text = v1gen.render(vg, 'v1')
+        for dialect in ('smiV1', 'smiV1Relaxed'):
+            ex = grammar.build(pc.DIALECTS[dialect])
+            a = pc.impl_parse(ex, text)
+            res.case(('smiv1-tree', dialect, text), True)
+            res.count('smiv1-trees')
+            inp = {'dialect': dialect, 'text': text, 'v1_seed': base + i}
+            if 'ast' not in a:
+                res.oracle_failures.append({'key': 'rejects-valid', 'what': 'well-formed SMIv1 text rejected under %s: %r' % (dialect, a), 'input': inp})
+                continue
+            bad = smiv1_failures(vg, pc.plain(a['ast'])[0])
+            if bad:
+                res.oracle_failures.append({'key': 'smiv1-syntax', 'what': '; '.join(bad[:3]), 'input': inp})
+
+
 def strip_fillers(ast):
     """drop the filler MACRO / CHOICE declarations the block stream inserts (canonical JSON AST)"""
     def s(x):
@@ -103,6 +145,9 @@ def run(ctx):
             loaded.add(ex['key'])
             reqs.append(grammar.tables_request(ex))
             metas.append(None)
+    # (o) SMIv1 texts: the application types that only the SMIv1 dialects know as keywords (Counter, Gauge, NetworkAddress)
+    # come out as application syntax, whichever dialects have had parsers built in this process before
+    smiv1_stream(ctx)
     # (i) lexer stream
     alphabet = "abzAZ09-_ \t\n\r\"'{}()[];:,.|=hHbB\\^`MACROENDXPTSCHOIé"
     texts = []
@@ -228,6 +273,17 @@ def literal_context(text, pos):
 def replay(payload):
     inp = payload['input']
     ex = grammar.build(pc.DIALECTS[inp['dialect']])
+    if 'v1_seed' in inp:
+        import random
+        from gen import v1gen
+        for dialect in pc.DIALECTS:
+            grammar.build(pc.DIALECTS[dialect])
+        vg = v1gen.V1Gen(random.Random(inp['v1_seed']), size=8).build()
+        a = pc.impl_parse(ex, v1gen.render(vg, 'v1'))
+        if 'ast' not in a:
+            return {'fails': True, 'impl': a}
+        bad = smiv1_failures(vg, pc.plain(a['ast'])[0])
+        return {'fails': bool(bad), 'what': bad[:3]}
     if inp.get('expect_structure'):
         # the record of what was printed comes from the generator; should the generator have changed since the input was
         # stored, the text is regenerated with it so that text and record always belong together
